@@ -756,16 +756,18 @@ fn reverse_ask(
 
     // determine the effective cancel size
     let effective_cancel_size = match cancel_size {
+        // no size requested, reverse the whole remainder of the order
         None => ask_order.size,
-        Some(cancel_size) => cancel_size,
+        Some(cancel_size) => {
+            // error if requested cancel size is not multiple of size_increment
+            if (cancel_size.u128() % contract_info.size_increment.u128()).ne(&0) {
+                return Err(ContractError::InvalidFields {
+                    fields: vec![String::from("size")],
+                });
+            }
+            cancel_size
+        }
     };
-
-    // error if cancel size is not multiple of size_increment
-    if (effective_cancel_size.u128() % contract_info.size_increment.u128()).ne(&0) {
-        return Err(ContractError::InvalidFields {
-            fields: vec![String::from("size")],
-        });
-    }
 
     // subtract the cancel size from the order size
     ask_order.size = ask_order
@@ -875,16 +877,18 @@ fn reverse_bid(
 
     // determine the effective cancel size
     let effective_cancel_size = match cancel_size {
+        // no size requested, reverse the whole remainder of the order
         None => bid_order.get_remaining_base(),
-        Some(cancel_size) => cancel_size,
+        Some(cancel_size) => {
+            // error if requested cancel size is not multiple of size_increment
+            if (cancel_size.u128() % contract_info.size_increment.u128()).ne(&0) {
+                return Err(ContractError::InvalidFields {
+                    fields: vec![String::from("size")],
+                });
+            }
+            cancel_size
+        }
     };
-
-    // error if cancel size is not multiple of size_increment
-    if (effective_cancel_size.u128() % contract_info.size_increment.u128()).ne(&0) {
-        return Err(ContractError::InvalidFields {
-            fields: vec![String::from("size")],
-        });
-    }
 
     // error if cancel size is greater than available base size
     if bid_order.get_remaining_base().lt(&effective_cancel_size) {
